@@ -20,7 +20,9 @@ MODELLED = dict(
            "public key encodings STRICTENC / WITNESS_PUBKEYTYPE", "NULLFAIL", "NULLDUMMY", "CHECKMULTISIG matching order", "FindAndDelete hit => CONST_SCRIPTCODE",
            "SIGPUSHONLY", "P2SH", "CLEANSTACK", "witness v0 P2WPKH/P2WSH native and P2SH-nested, malleation, mismatch, unexpected witness, wrong program length",
            "unknown witness programs / pay-to-anchor", "taproot key path, annex, control block size, commitment, leaf versions, tapscript, OP_SUCCESS pre-scan, "
-           "CHECKSIGADD, validation weight budget, unknown public key types"],
+           "CHECKSIGADD, validation weight budget, unknown public key types",
+           "OP_CODESEPARATOR: legacy/BIP143 script code from the last executed separator (legacy hashing drops separators); tapscript opcode position "
+           "counting every decoded instruction incl. non-executed branches, bound by real Schnorr signatures over every candidate position"],
 )
 
 INFRA_MARKERS = ("vector encoding", "unknown flag", "sign failed", "symbolic block decoded", "decompress failed", "tap tweak failed")
